@@ -93,9 +93,13 @@ impl<T: Obs> Obs for SpannedValue<T> {
         MV::Spanned(Box::new((**self).obs()), range(self.span()))
     }
 }
+/// The structure of an item, invisible groups included (token printing would hide them): "an identical copy".
+fn exact(m: &syn::Meta) -> String {
+    format!("{} :: {:?}", canon_tokens(m.to_token_stream()), m)
+}
 impl<T: Obs> Obs for WithOriginal<T, syn::Meta> {
     fn obs(&self) -> MV {
-        MV::WithOrig(Box::new(self.parsed.obs()), canon_tokens(self.original.to_token_stream()))
+        MV::WithOrig(Box::new(self.parsed.obs()), exact(&self.original))
     }
 }
 impl<T: Obs> Obs for Override<T> {
@@ -118,7 +122,7 @@ impl<T: Obs> Obs for Result<T, syn::Meta> {
     fn obs(&self) -> MV {
         match self {
             Ok(x) => MV::MetaOk(Box::new(x.obs())),
-            Err(m) => MV::MetaErr(canon_tokens(m.to_token_stream())),
+            Err(m) => MV::MetaErr(exact(m)),
         }
     }
 }
@@ -276,7 +280,7 @@ fn model_w(w: W, inner: MR, m: &syn::Meta) -> MR {
             Ok(v) => Ok(MV::Spanned(Box::new(v), value_span(m).unwrap_or((0, 0)))),
             Err((d, s)) => Err((d, s.or(Some(item)))),
         },
-        W::Orig => inner.map(|v| MV::WithOrig(Box::new(v), canon_tokens(m.to_token_stream()))),
+        W::Orig => inner.map(|v| MV::WithOrig(Box::new(v), exact(m))),
         W::Over => {
             if matches!(m, syn::Meta::Path(_)) {
                 Ok(MV::Inherit)
@@ -290,7 +294,7 @@ fn model_w(w: W, inner: MR, m: &syn::Meta) -> MR {
         }),
         W::MRes => Ok(match inner {
             Ok(v) => MV::MetaOk(Box::new(v)),
-            Err(_) => MV::MetaErr(canon_tokens(m.to_token_stream())),
+            Err(_) => MV::MetaErr(exact(m)),
         }),
     }
 }
@@ -324,6 +328,25 @@ pub fn check_item(ctx: &Ctx, src: &str, table: &[Entry]) -> Result<(), Fail> {
             return Ok(());
         }
     };
+    check_meta(ctx, m.clone(), src, table)?;
+    // the same item with its value inside one / two invisible groups built as syntax-tree nodes (what forwarding a
+    // `$e:expr` through macro_rules! delivers): wrappers stay transparent, copies stay identical
+    if let syn::Meta::NameValue(nv) = &m {
+        use syn::spanned::Spanned;
+        let levels = 1 + (vmodel::ev::hash64(src) % 2) as usize;
+        let mut v = nv.value.clone();
+        for _ in 0..levels {
+            let sp = v.span();
+            v = syn::Expr::Group(syn::ExprGroup { attrs: vec![], group_token: syn::token::Group { span: sp }, expr: Box::new(v) });
+        }
+        let g = syn::Meta::NameValue(syn::MetaNameValue { path: nv.path.clone(), eq_token: nv.eq_token, value: v });
+        ctx.class("form:value-in-invisible-group");
+        check_meta(ctx, g, &format!("{} [value in {} invisible group(s)]", src, levels), table)?;
+    }
+    Ok(())
+}
+
+fn check_meta(ctx: &Ctx, m: syn::Meta, src: &str, table: &[Entry]) -> Result<(), Fail> {
     let form = match &m {
         syn::Meta::Path(_) => "word",
         syn::Meta::List(_) => "list",
